@@ -66,7 +66,7 @@ def check_regular_file(filename, *, options):
     checker_instance.check()
 
 def copy_options(options, **update):
-    kwargs = vars(options)
+    kwargs = dict(vars(options))
     kwargs.update(update)
     return argparse.Namespace(**kwargs)
 
